@@ -45,23 +45,32 @@ Qed.
 
 Definition decl_name (s : stmt) : list string := match s with SDecl _ x _ => [x] | _ => [] end.
 
-Lemma simple_exec_names M s : forall fuel st fl st', ssimple s = true -> exec M fuel s st = RefSem.ROk (fl, st') ->
+Lemma simple_exec_names_0 M s : forall fuel st fl st', ssimple0 s = true -> exec M fuel s st = RefSem.ROk (fl, st') ->
   forall y, In y (locals_names st') -> In y (decl_name s) \/ In y (locals_names st).
 Proof.
   intros fuel st fl st' Hs H y Hy. destruct fuel as [|fu]; [discriminate|]. destruct s as [t x init|e| | | | | | | |]; try discriminate.
   - rewrite exec_decl_unfold in H. cbn zeta in H. destruct init as [e|].
-    + cbn [ssimple] in Hs. apply andb_prop in Hs as [_ Hp].
+    + cbn [ssimple0] in Hs. apply andb_prop in Hs as [_ Hp].
       destruct (eval M fu e (declare st x (zero_of (m_structs M) 8 t))) as [[v st2]| | |] eqn:Ev; cbn [rbind] in H; try discriminate.
       apply (eval_pure_state M e fu _ _ _ Hp) in Ev. subst st2.
       destruct (var_set (declare st x (zero_of (m_structs M) 8 t)) x v) as [st3| | |] eqn:Es; cbn [rbind] in H; try discriminate. inversion H; subst.
       rewrite (var_set_names _ _ _ _ Es) in Hy. apply declare_names in Hy as [->|Hy]; [left; left; reflexivity|right; exact Hy].
     + inversion H; subst. apply declare_names in Hy as [->|Hy]; [left; left; reflexivity|right; exact Hy].
   - destruct e as [| | | |o l r| | | | | |]; try discriminate. destruct o; try discriminate. destruct l as [| |x| | | | | | | |]; try discriminate.
-    cbn [ssimple] in Hs. rewrite exec_expr_unfold in H. destruct fu as [|fu']; [discriminate|]. rewrite eval_assign_unfold in H.
+    cbn [ssimple0] in Hs. rewrite exec_expr_unfold in H. destruct fu as [|fu']; [discriminate|]. rewrite eval_assign_unfold in H.
     destruct (eval M fu' r st) as [[v st2]| | |] eqn:Ev; cbn [rbind] in H; try discriminate. apply (eval_pure_state M r fu' _ _ _ Hs) in Ev. subst st2.
     destruct (var_get st x) as [cur| | |]; cbn [rbind sto_set] in H; try discriminate.
     destruct (var_set st x v) as [st3| | |] eqn:Es; cbn [rbind] in H; try discriminate. inversion H; subst. cbn [snd] in Hy.
     rewrite (var_set_names _ _ _ _ Es) in Hy. right. exact Hy.
+Qed.
+
+Lemma decl_name_desugar s : decl_name (desugar s) = decl_name s.
+Proof. destruct s as [| e | | | | | | | |]; try reflexivity. destruct e as [| | | |o l r| | | | | |]; try reflexivity. destruct l; try reflexivity. cbn. destruct (aop_binop o); reflexivity. Qed.
+Lemma simple_exec_names M s : forall fuel st fl st', ssimple s = true -> exec M fuel s st = RefSem.ROk (fl, st') ->
+  forall y, In y (locals_names st') -> In y (decl_name s) \/ In y (locals_names st).
+Proof.
+  intros fuel st fl st' Hs H y Hy. apply desugar_exec in H as [fuel' H]. rewrite <- decl_name_desugar.
+  exact (simple_exec_names_0 M (desugar s) fuel' st fl st' Hs H y Hy).
 Qed.
 
 Lemma simple_body_names M : forall l e fuel st fl st', forallb ssimple l = true -> spure e = true ->
